@@ -157,7 +157,7 @@ Definition set_field_attrs (fld : field) (l : list member_attr) : field :=
   {| f_attrs := with_attrs (f_attrs fld) l; f_idx := f_idx fld; f_member := f_member fld; f_member_str := f_member_str fld; f_ty := f_ty fld |}.
 
 Definition set_fields (s : struct_) (fs : list field) : struct_ :=
-  {| s_attrs := s_attrs s; s_ident := s_ident s; s_generics := s_generics s; s_fields := fs; s_named := s_named s; s_unit := s_unit s |}.
+  {| s_attrs := s_attrs s; s_ident := s_ident s; s_generics := s_generics s; s_fields := fs; s_named := s_named s; s_unit := s_unit s; s_where := s_where s |}.
 
 (* inserting, anywhere among the instructions of any field of a struct, an instruction that is not
    applicable to the conversion of impl context c leaves that impl token-identical *)
